@@ -326,10 +326,26 @@ class Spinner:
             # Twisted's signal handlers.
             real_stop, self._reactor.stop = self._reactor.stop, self._fake_stop
 
+            # The callbacks below belong to this call of run() only: should the
+            # Deferred outlive it (timeout, interruption) and fire during a
+            # later run of this Spinner, it must not become that run's result.
+            this_run = self._current_run = object()
+
+            def for_this_run(callback):
+                def call_if_current(result):
+                    if self._current_run is not this_run:
+                        return result
+                    return callback(result)
+
+                return call_if_current
+
             def run_function():
                 d = defer.maybeDeferred(function, *args, **kwargs)
-                d.addCallbacks(self._got_success, self._got_failure)
-                d.addBoth(self._stop_reactor)
+                d.addCallbacks(
+                    for_this_run(self._got_success),
+                    for_this_run(self._got_failure),
+                )
+                d.addBoth(for_this_run(self._stop_reactor))
 
             try:
                 self._reactor.callWhenRunning(run_function)
